@@ -682,6 +682,31 @@ def check_interp_xoprob(prog, rep):
         rep.ok("R6-xoprob", construct, "grouped; genpos = gmap.interp_genpos(chrgrp, phypos); then xoprob = gmapfn.rprob1g(gmap, chrgrp, genpos)")
 
 
+def check_spline_build(prog, rep, c):
+    """R7-build: the interpolation spline a map answers queries with is built from the map's OWN positions: the constructor builds it whenever `auto_build_spline` is set,
+    whatever spline object it was handed (a spline of another map - through from_pandas / from_csv / copy-construction - interpolates that other map)."""
+    f = c.methods.get("__init__")
+    if f is None or "auto_build_spline" not in f.params():
+        rep.unrec("R7-build", c.qualname, "constructor has no auto_build_spline option")
+        return
+    rep.saw(f)
+    construct = f.qualname
+    ifs = [st for st in walk_no_nested(f.node) if isinstance(st, ast.If) and any(
+        isinstance(x, ast.Call) and isinstance(x.func, ast.Attribute) and x.func.attr == "build_spline" and dump(x.func.value) == "self" for b in st.body for x in ast.walk(b))]
+    if len(ifs) != 1:
+        rep.unrec("R7-build", construct, "expected one guarded call of self.build_spline in the constructor")
+        return
+    t = ifs[0].test
+    if isinstance(t, ast.Name) and t.id == "auto_build_spline":
+        rep.ok("R7-build", construct, "spline built from the map's own positions whenever auto_build_spline is set")
+    elif isinstance(t, ast.BoolOp) and isinstance(t.op, ast.And) and any(isinstance(v, ast.Name) and v.id == "auto_build_spline" for v in t.values):
+        extra = [dump(v) for v in t.values if not (isinstance(v, ast.Name) and v.id == "auto_build_spline")]
+        rep.violate("R7-build", construct, "the spline is rebuilt only when additionally %s: a spline object handed to the constructor is kept although auto_build_spline is set, and "
+                    "the map interpolates with the positions that spline was built from" % " and ".join(extra), where(f, ifs[0]), "if auto_build_spline:", dump(t))
+    else:
+        rep.unrec("R7-build", construct, "guard of the spline construction is %s" % dump(t)[:60])
+
+
 def run(prog, rep, tier):
     rep.explanation = ("Spec congruence of the map-function formulas through an algebraic normal form (inverse pair, value at 0, limit at +inf), and "
                        "template verification of sequential / pairwise distance, interpolation, ordering and crossover-probability assignment in both "
@@ -697,5 +722,7 @@ def run(prog, rep, tier):
         check_gdist2g(prog, rep, c)
         check_interp(prog, rep, c)
         check_order(prog, rep, c)
+        check_spline_build(prog, rep, c)
     check_interp_xoprob(prog, rep)
+    rep.floor("R7-build", 2)
     wire(prog, rep, "C11", 1, 115)
